@@ -362,4 +362,80 @@ theorem getA_isSome (offered : List (RectAlloc α)) (f : Module α) (c : Nat) (h
   · exact ⟨_, rfl⟩
   · split <;> exact ⟨_, rfl⟩
 
+/-! ### the generic refine / optimise loop -/
+
+theorem loopG_invariant {σ : Type} (optimize : σ → Option σ) (mustRefine : σ → Bool) (refine : σ → σ)
+    (maxIter : Option Nat) (P : σ → Prop) (hrefine : ∀ s, P s → P (refine s))
+    (hopt : ∀ s r, P s → optimize s = some r → P r)
+    (fuel n : Nat) (s r : σ) (hs : P s) (h : loopG optimize mustRefine refine maxIter fuel n s = some r) : P r := by
+  induction fuel generalizing n s with
+  | zero => simp [loopG] at h
+  | succ fuel ih =>
+    unfold loopG at h
+    by_cases hc : withinLimit maxIter n = true
+    · rw [if_pos hc] at h
+      by_cases h1 : 1 < n
+      · rw [if_pos h1] at h
+        by_cases hm : mustRefine s = true
+        · rw [if_pos hm] at h
+          cases ho : optimize (refine s) with
+          | none => simp only [ho] at h; exact absurd h (by simp)
+          | some s' => simp only [ho] at h; exact ih _ _ (hopt _ _ (hrefine s hs) ho) h
+        · rw [if_neg hm] at h; simp only [Option.some.injEq] at h; subst h; exact hs
+      · rw [if_neg h1] at h
+        cases ho : optimize s with
+        | none => simp only [ho] at h; exact absurd h (by simp)
+        | some s' => simp only [ho] at h; exact ih _ _ (hopt _ _ hs ho) h
+    · rw [if_neg hc] at h; simp only [Option.some.injEq] at h; subst h; exact hs
+
+/-- whatever the loop returns is its starting state or the output of an optimise step. -/
+theorem loopG_result {σ : Type} (optimize : σ → Option σ) (mustRefine : σ → Bool) (refine : σ → σ)
+    (maxIter : Option Nat) (fuel n : Nat) (s r : σ)
+    (h : loopG optimize mustRefine refine maxIter fuel n s = some r) : r = s ∨ ∃ s', optimize s' = some r := by
+  induction fuel generalizing n s with
+  | zero => simp [loopG] at h
+  | succ fuel ih =>
+    unfold loopG at h
+    by_cases hc : withinLimit maxIter n = true
+    · rw [if_pos hc] at h
+      by_cases h1 : 1 < n
+      · rw [if_pos h1] at h
+        by_cases hm : mustRefine s = true
+        · rw [if_pos hm] at h
+          cases ho : optimize (refine s) with
+          | none => simp only [ho] at h; exact absurd h (by simp)
+          | some s' =>
+            simp only [ho] at h
+            rcases ih _ _ h with rfl | hx
+            · exact Or.inr ⟨_, ho⟩
+            · exact Or.inr hx
+        · rw [if_neg hm] at h; simp only [Option.some.injEq] at h; exact Or.inl h.symm
+      · rw [if_neg h1] at h
+        cases ho : optimize s with
+        | none => simp only [ho] at h; exact absurd h (by simp)
+        | some s' =>
+          simp only [ho] at h
+          rcases ih _ _ h with rfl | hx
+          · exact Or.inr ⟨_, ho⟩
+          · exact Or.inr hx
+    · rw [if_neg hc] at h; simp only [Option.some.injEq] at h; exact Or.inl h.symm
+
+/-- started at `n_iter = 1` with at least one pass allowed, the loop optimises before it may stop: what it returns
+    is the output of an optimise step. -/
+theorem loopG_first {σ : Type} (optimize : σ → Option σ) (mustRefine : σ → Bool) (refine : σ → σ)
+    (maxIter : Option Nat) (fuel : Nat) (s r : σ) (hlim : withinLimit maxIter 1 = true)
+    (h : loopG optimize mustRefine refine maxIter fuel 1 s = some r) : ∃ s', optimize s' = some r := by
+  cases fuel with
+  | zero => simp [loopG] at h
+  | succ fuel =>
+    unfold loopG at h
+    rw [if_pos hlim, if_neg (by omega)] at h
+    cases ho : optimize s with
+    | none => simp only [ho] at h; exact absurd h (by simp)
+    | some s' =>
+      simp only [ho] at h
+      rcases loopG_result _ _ _ _ _ _ _ _ h with rfl | hx
+      · exact ⟨_, ho⟩
+      · exact hx
+
 end FV.Glb
